@@ -338,7 +338,7 @@ func vfGroupLogRun(t testing.TB, w *vfRWorld, sc vfScript) []map[string]any {
 				// what was appended (decoded from the entry itself, not from the index)
 				if msgMode {
 					ev["evk"] = "msg"
-				} else if meta, evt, oerr := openMetadataEntry(m.OpLog(), e, g); oerr == nil {
+				} else if meta, evt, oerr := vfOpenMetadataEntry(m.OpLog(), e, g); oerr == nil {
 					ev["type"] = meta.Metadata.EventType.String()
 					ev["evk"] = vfEvKinds[meta.Metadata.EventType]
 					if rs, ok := evt.(*protocoltypes.AccountContactRequestReferenceReset); ok {
